@@ -26,6 +26,8 @@ THEOREMS = [
     "RedunModel.C32.eval_file_roundtrip",
     "RedunModel.C32.gather_sound",
     "RedunModel.C32.reunite_same_hash",
+    "RedunModel.C32.element_records_in_own_files",
+    "RedunModel.C32.own_files_are_not_spec_files",
     "RedunModel.C32.reunited_is_inflight_same_hash",
     "RedunModel.C32.finished_namesake_not_reunited",
 ]
@@ -50,7 +52,12 @@ RULE = ("(names) generated prefix/hash/array triples -> get_batch_job_name, get_
         "write_array_job_scratch_files vs model file contents, then for every index the real get_oneshot_command + "
         "RedunClient.execute in-process under the platform's index variable, parse_job_result/parse_job_error compared with "
         "the local call (value/type, exception type/args) and the written scratch path compared with the model's projection; "
-        "out-of-range index; stale error files; (single) the same for per-job input files incl. --no-cache; (gather) generated "
+        "out-of-range index; stale error files; (single) the same for per-job input files incl. --no-cache; (pretask) arrays whose elements are run in shuffled order as the real "
+        "oneshot --array-job entry point (each as a fresh worker: script re-imported) where some elements fail before the task is "
+        "called (script import error on that worker, corrupt code package at that moment, unknown task name): the failure must "
+        "be recorded in that element's own error file, the four shared spec files must be byte-identical before and after every "
+        "element, every other element must still equal the local call, and the written file is compared with model oneshotOps; "
+        "(gather) generated "
         "in-flight job lists (single, array with/without eval file, unrelated, duplicates, out-of-range child index) on a "
         "real AWSBatchExecutor with faked Batch listing: preexisting_batch_jobs vs model, then _submit's reunite branch: "
         "pending_batch_jobs vs model and vs the ground truth of which eval hash each Batch job was created for; (queue) the same "
@@ -67,7 +74,9 @@ LEVEL_TEXT = ("Proved in Lean (full strength, every prefix/hash/list/index): get
               "write_array_job_scratch_files reads the i-th args/kwargs and writes exactly the output/error path that "
               "parse_job_result/parse_job_error read for job i, an index outside the array raises (array_projection, "
               "array_projection_out_of_range); paths of different eval hashes and output vs error are pairwise distinct "
-              "(job_paths_injective, element_paths_distinct); the eval-hash file round trips (eval_file_roundtrip); every "
+              "(job_paths_injective, element_paths_distinct); whatever the point at which an element fails (code package, script import, "
+              "task lookup, task body) it only touches job i's own error/output file, records the failure in its own error file, "
+              "and those files are never a shared spec file (element_records_in_own_files, own_files_are_not_spec_files); the eval-hash file round trips (eval_file_roundtrip); every "
               "binding gather_inflight_jobs produces, and therefore every job _submit reunites with, is a Batch job whose "
               "name (single) or eval-hash file line at its array index (array child) carries that very eval hash "
               "(gather_sound, reunite_same_hash); against a queue that still lists finished jobs, a job is attached only to a job or array "
@@ -580,6 +589,160 @@ def check_gather(ctx, T, n_worlds, tmp):
     batch.flush(ctx)
 
 
+# ------------------------------------------------------------------ array elements that fail before the task is called
+FLAKY_SRC = """
+import os
+
+if os.environ.get("VERIF_C32_IMPORT_FAIL") == "1":      # this worker lacks a dependency of the workflow script
+    import verif_c32_missing_dependency  # noqa: F401
+
+from redun import task
+
+
+@task()
+def inv(x, y=1):
+    return (x * 10) // y
+"""
+
+
+def check_pretask(ctx, n_arrays, tmp, moddir):
+    """Arrays whose elements are run one after the other as `redun oneshot --array-job`; some elements fail before the
+    task is called (script import error on that worker, corrupt code package at that moment, unknown task)."""
+    import tarfile
+
+    from redun.cli import RedunClient
+    from redun.executors.command import get_oneshot_command
+    from redun.executors.scratch import (SCRATCH_ERROR, SCRATCH_OUTPUT, get_job_scratch_file, parse_job_error, parse_job_result,
+                                         write_array_job_scratch_files)
+    from redun.file import File
+    rng = ctx.rng
+    modname = "verif_c32_flaky"
+    with open(os.path.join(moddir, modname + ".py"), "w") as f:
+        f.write(FLAKY_SRC)
+    sys.modules.pop(modname, None)
+    F = __import__(modname)
+    client = RedunClient()
+    batch = Batch()
+    corpus = [dict(n=4, kinds=["import", "none", "none", "none"], order=[0, 1, 2, 3], code=False, lookup=False),
+              dict(n=3, kinds=["none", "code", "none"], order=[1, 0, 2], code=True, lookup=False),
+              dict(n=2, kinds=["none", "none"], order=[0, 1], code=False, lookup=True)]
+    for g in range(n_arrays):
+        if g < len(corpus):
+            spec = corpus[g]
+        else:
+            n = rng.choice([2, 3, 4, 5])
+            code = rng.random() < 0.5
+            kinds = [rng.choice(["none", "none", "none", "import", "code" if code else "import"]) for _ in range(n)]
+            order = list(range(n))
+            rng.shuffle(order)
+            spec = dict(n=n, kinds=kinds, order=order, code=code, lookup=rng.random() < 0.12)
+        n = spec["n"]
+        scratch = os.path.join(tmp, "pre%d" % g, rng.choice(["s", "s/", "scratch dir"]))
+        hashes = []
+        while len(hashes) < n:
+            h = gen_hex(rng, 40)
+            if h not in hashes:
+                hashes.append(h)
+        calls = [((rng.choice([0, 1, 3, 7]),), rng.choice([{}, {"y": 2}, {"y": 0}, {"y": 3}])) for _ in range(n)]
+        from redun.scheduler import Job
+        jobs = []
+        for c, h in zip(calls, hashes):
+            j = Job(F.inv, F.inv(*c[0], **c[1]))
+            j.eval_hash, j.args = h, c
+            jobs.append(j)
+        array_id = gen_hex(rng, 32)
+        files = write_array_job_scratch_files(jobs, scratch, array_id)
+        spec_files = [files.input_file, files.output_file, files.error_file, files.eval_file]
+        code_path = os.path.join(tmp, "pre%d" % g, "code.tar.gz")
+        if spec["code"]:
+            marker = os.path.join(tmp, "pre%d" % g, "c32_code_marker.txt")
+            open(marker, "w").write("code package\n")
+            with tarfile.open(code_path, "w:gz") as tf:
+                tf.add(marker, arcname="c32_code_marker.txt")
+            good_code = open(code_path, "rb").read()
+        cmd = get_oneshot_command(scratch, jobs[0], F.inv, array_uuid=array_id, code_file=File(code_path) if spec["code"] else None)
+        if spec["lookup"]:
+            cmd = cmd[:-1] + ["no_such_task_in_this_script"]
+        case = {"kind": "array-pretask", "spec": spec, "calls": repr(calls), "hashes": hashes}
+        stale = [i for i in range(n) if rng.random() < 0.25]
+        for i in stale:
+            p = get_job_scratch_file(scratch, jobs[i], SCRATCH_ERROR)
+            os.makedirs(os.path.dirname(p), exist_ok=True)
+            open(p, "wb").write(b"stale")
+        var = rng.choice(ARRAY_VARS)
+        for i in spec["order"]:
+            kind = "lookup" if spec["lookup"] and spec["kinds"][i] == "none" else spec["kinds"][i]
+            spec_before = [open(p, "rb").read() for p in spec_files]
+            before = snapshot(scratch)
+            env = {var: str(i)}
+            if kind == "import":
+                env["VERIF_C32_IMPORT_FAIL"] = "1"
+            if kind == "code":
+                open(code_path, "wb").write(b"this is not a tar archive")
+            sys.modules.pop(modname, None)          # every element is a fresh worker process: the script is imported anew
+            raised = None
+            with mock.patch.dict(os.environ, env):
+                for v in ARRAY_VARS:
+                    if v != var:
+                        os.environ.pop(v, None)
+                try:
+                    run_oneshot(client, cmd)
+                except BaseException as e:  # noqa: BLE001
+                    raised = e
+            if kind == "code":
+                open(code_path, "wb").write(good_code)
+            for leftover in ("c32_code_marker.txt",):
+                if os.path.exists(leftover):
+                    os.remove(leftover)
+            spec_after = [open(p, "rb").read() if os.path.exists(p) else None for p in spec_files]
+            after = snapshot(scratch)
+            changed = sorted(p for p in after if before.get(p) != after[p])
+            own_err = get_job_scratch_file(scratch, jobs[i], SCRATCH_ERROR)
+            own_out = get_job_scratch_file(scratch, jobs[i], SCRATCH_OUTPUT)
+            # what the executor's monitor then reports for this job
+            if raised is None:
+                res, exists = parse_job_result(scratch, jobs[i])
+                remote = ("ok", res) if exists else ("missing-output", None)
+            else:
+                remote = ("err", parse_job_error(scratch, jobs[i])[0])
+            if kind == "none":
+                local = local_outcome(F.inv, *calls[i])
+                stage = "none" if local[0] == "ok" else "task"
+            else:
+                local = ("err", raised)          # the failure of this worker, as raised by the oneshot entry point
+                stage = kind
+            ecase = dict(case, index=i, failure=kind, var=var)
+            ctx.case(key=("pretask", g, i, kind), sample={"kinds": spec["kinds"], "order": spec["order"], "index": i}, kind="array-pretask",
+                     failure=stage, outcome=remote[0] + ":" + type(remote[1]).__name__, size=n, code_package=spec["code"])
+            if spec_after != spec_before:
+                ctx.violation("C32-array-spec-file-clobbered", "an array element changed one of the array's shared spec files "
+                              "(input / output / error / eval_hashes)", case=ecase, expected="byte-identical before and after every element",
+                              actual=[os.path.basename(p) for p, a, b in zip(spec_files, spec_before, spec_after) if a != b])
+            if kind != "none" and (raised is None or type(remote[1]).__name__ in ("ExceptionNotFoundError", "ScratchError")
+                                   or not same_outcome(local, remote)):
+                ctx.violation("C32-pretask-failure-not-in-own-error-file", "an array element failed before the task was called but its "
+                              "error is not recorded in its own error file", case=ecase, expected=show(local) if raised else "an error",
+                              actual=show(remote))
+            if kind == "none" and not same_outcome(local, remote):
+                ctx.violation("C32-array-element-result", "array element run through the scratch protocol differs from the local call "
+                              "(its outcome depends on other elements of the array)", case=ecase, expected=show(local), actual=show(remote))
+            want = own_out if stage == "none" else own_err
+            if changed != [want]:
+                ctx.violation("C32-array-element-files", "array element did not write exactly its own output/error scratch file",
+                              case=ecase, expected=[want], actual=changed)
+
+            def cmp_ops(mo, want=want, stage=stage, changed=changed, ecase=ecase):
+                ops = unsx(mo)[0] if not mo.startswith("!") else mo
+                writes = [[str(o[0]), o[1]] for o in ops if str(o[0]) != "remove"] if isinstance(ops, list) else ops
+                impl = [["woutput" if stage == "none" else "werror", p] for p in changed]
+                if writes != impl:
+                    ctx.mismatch("files written by an array element differ from model oneshotOps", case=ecase, model=writes, impl=impl)
+            batch.add("ops %s %s i%d T %s" % (sx(scratch), sx(hashes), i, stage), cmp_ops)
+        shutil.rmtree(os.path.join(tmp, "pre%d" % g), ignore_errors=True)
+    sys.modules.pop(modname, None)
+    batch.flush(ctx)
+
+
 # ------------------------------------------------------------------ reuniting against a queue with jobs in every status
 ALL_STATUSES = ["SUBMITTED", "PENDING", "RUNNABLE", "STARTING", "RUNNING", "SUCCEEDED", "FAILED"]
 INFLIGHT = ALL_STATUSES[:5]
@@ -765,6 +928,7 @@ def run(ctx):
         check_names(ctx, ctx.n(1500, 40000))
         check_arrays(ctx, T, ctx.n(40, 1500), tmp)
         check_singles(ctx, T, ctx.n(150, 5000), tmp)
+        check_pretask(ctx, ctx.n(12, 400), tmp, moddir)
         check_gather(ctx, T, ctx.n(40, 1500), tmp)
         check_queue(ctx, T, ctx.n(60, 1500), tmp)
     finally:
